@@ -777,6 +777,9 @@ class Tensor:
         """self[...] = src (broadcast), through this view into the storage."""
         src = as_tensor_like(src, self)
         shape = _bcast_shapes([self._shape, src._shape])
+        # torch: an in-place operation cannot enlarge its output ("output with shape [...] doesn't match the broadcast shape [...]")
+        if len(shape) != len(self._shape) or not _all(same_int(a_, b_) for a_, b_ in zip(shape, self._shape)):
+            raise TorchRuntimeError("output with shape %s doesn't match the broadcast shape %s" % (list(self._shape), list(shape)))
         rd = _bcast_reader(src, self._shape)
         if self.dtype is not src.dtype:
             rd0 = rd
@@ -900,6 +903,39 @@ class Tensor:
 
     def div_(self, o):
         return self.__itruediv__(o)
+
+    def masked_fill(self, mask, value):
+        return where(mask, as_tensor_like(value, self), self)
+
+    def masked_fill_(self, mask, value):
+        return self._assign_all(self.masked_fill(mask, value), 'masked_fill_')
+
+    def lerp_(self, end, weight):
+        return self._assign_all(self.lerp(end, weight), 'lerp_')
+
+    def cumsum_(self, dim):
+        return self._assign_all(self.cumsum(dim), 'cumsum_')
+
+    def exp_(self):
+        return self._assign_all(self.exp(), 'exp_')
+
+    def sqrt_(self):
+        return self._assign_all(self.sqrt(), 'sqrt_')
+
+    def neg_(self):
+        return self._assign_all(-self, 'neg_')
+
+    def abs_(self):
+        return self._assign_all(self.abs(), 'abs_')
+
+    def square_(self):
+        return self._assign_all(self * self, 'square_')
+
+    def clamp_(self, min=None, max=None):
+        return self._assign_all(self.clamp(min=min, max=max), 'clamp_')
+
+    def pow_(self, e):
+        return self._assign_all(self ** e, 'pow_')
 
     # ---- comparisons
     def __lt__(self, o):
